@@ -11,6 +11,7 @@
   * `EnvOK`       — `env ⊨ Γ`: request variables have the environment's entity types, the context inhabits its record type.
 -/
 import CedarGo.Model.Validate.Check
+import CedarGoProofs.Lemmas.RecordLit
 namespace CedarGo.Validate
 open CedarGo
 
@@ -1313,6 +1314,60 @@ theorem kvGet_foldl (k : String) : ∀ (kvs acc : List (String × Value)),
     cases lastKV k rest <;> simp
     split <;> simp
 
+theorem lastKV_map {α β : Type} (f : α → β) (k : String) : ∀ (l : List (String × α)),
+    lastKV k (l.map (fun kv => (kv.1, f kv.2))) = (lastKV k l).map f
+  | [] => rfl
+  | (k', x) :: rest => by
+    simp only [List.map_cons, lastKV, lastKV_map f k rest]
+    cases lastKV k rest with
+    | some y => rfl
+    | none => simp only [Option.map_none]; split <;> rfl
+
+theorem lastKV_none_fresh {α : Type} {k : String} : ∀ {l : List (String × α)}, lastKV k l = none → ∀ y ∈ l, y.1 ≠ k
+  | [], _ => by intro y hy; cases hy
+  | (k', x) :: rest, h => by
+    simp only [lastKV] at h
+    cases hr : lastKV k rest with
+    | some y => rw [hr] at h; cases h
+    | none =>
+      rw [hr] at h
+      simp only at h
+      intro y hy
+      rcases List.mem_cons.mp hy with hy | hy
+      · rw [hy]; intro e; simp only at e; rw [e] at h; simp at h
+      · exact lastKV_none_fresh hr y hy
+
+/-- the last entry of a key is one of the entries a record literal evaluates -/
+theorem lastKV_mem_canonFrom {α : Type} {k : String} {x : α} : ∀ {l : List (String × α)} (acc : List (String × α)),
+    lastKV k l = some x → (k, x) ∈ canonFrom acc l
+  | [], _, h => by cases h
+  | (k', x') :: rest, acc, h => by
+    have h1 : canonFrom acc ((k', x') :: rest) = canonFrom (insKey k' x' acc) rest := rfl
+    rw [h1]
+    simp only [lastKV] at h
+    cases hr : lastKV k rest with
+    | some y =>
+      rw [hr] at h
+      simp only [Option.some.injEq] at h
+      subst h
+      exact lastKV_mem_canonFrom _ hr
+    | none =>
+      rw [hr] at h
+      simp only at h
+      split at h
+      · rename_i hkk
+        have e : k = k' := by simpa using hkk
+        simp only [Option.some.injEq] at h
+        subst h; subst e
+        exact canonFrom_mem_of_fresh rest _ (k, x') (insKey_self_mem _ _ _) (lastKV_none_fresh hr)
+      · cases h
+
+theorem lastKV_mem_canonKVs {α : Type} {k : String} {x : α} {l : List (String × α)} (h : lastKV k l = some x) :
+    (k, x) ∈ canonKVs l := lastKV_mem_canonFrom [] h
+
+/-- the value of an entry (junk if it errors; only used for entries that evaluate) -/
+def valOf (env : Env) (e : Expr) : Value := match eval e env with | .ok v => v | .error _ => default
+
 def RecRel : Option Value → Option (Ty × Bool) → Prop
   | some v, some (t, req) => HasTy v t ∧ req = true
   | none, none => True
@@ -1321,14 +1376,33 @@ def RecRel : Option Value → Option (Ty × Bool) → Prop
 section recs
 variable {Γ : TEnv} {env : Env}
 
-theorem evalKVs_sound : ∀ {kes : List (String × Expr)} {caps : Caps} {attrs : Attrs}, (∀ ke ∈ kes, IH Γ env ke.2) →
+/-- every entry of a well-typed record literal is well-typed -/
+theorem typeOfKVs_entry_ok : ∀ {kes : List (String × Expr)} {caps : Caps} {attrs : Attrs},
+    typeOfKVs true Γ kes caps = .ok attrs → ∀ ke ∈ kes, ∃ t c, typeOf true Γ ke.2 caps = .ok (t, c)
+  | [], _, _, _ => by intro ke h; cases h
+  | (k0, e) :: kes, caps, attrs, h => by
+    simp only [typeOfKVs] at h
+    split at h
+    · simp at h
+    · rename_i t c he
+      split at h
+      · simp at h
+      · rename_i rest hrest
+        intro ke hke
+        rcases List.mem_cons.mp hke with hke | hke
+        · rw [hke]; exact ⟨t, c, he⟩
+        · exact typeOfKVs_entry_ok hrest ke hke
+
+/-- The attribute types computed by `typeOfRecord` describe the LAST entry of every key, provided that entry
+    evaluates (the entries a record literal evaluates are exactly those: `lastKV_mem_canonKVs`). -/
+theorem typeOfKVs_rel : ∀ {kes : List (String × Expr)} {caps : Caps} {attrs : Attrs}, (∀ ke ∈ kes, IH Γ env ke.2) →
     CapsHold env caps → typeOfKVs true Γ kes caps = .ok attrs →
-    (∃ k, evalKVs kes env = .error k ∧ Allowed k) ∨
-      (∃ kvs, evalKVs kes env = .ok kvs ∧ ∀ k, RecRel (lastKV k kvs) (lookupAttr k attrs))
-  | [], caps, attrs, _, _, h => by
+    (∀ k e, lastKV k kes = some e → ∃ v, eval e env = .ok v) →
+    ∀ k, RecRel ((lastKV k kes).map (valOf env)) (lookupAttr k attrs)
+  | [], caps, attrs, _, _, h, _ => by
     simp only [typeOfKVs, Except.ok.injEq] at h; subst h
-    exact .inr ⟨[], by simp [evalKVs], fun k => by simp [lastKV, lookupAttr, RecRel]⟩
-  | (k0, e) :: kes, caps, attrs, ih, hc, h => by
+    intro k; simp [lastKV, lookupAttr, RecRel]
+  | (k0, e) :: kes, caps, attrs, ih, hc, h, hlast => by
     simp only [typeOfKVs] at h
     split at h
     · simp at h
@@ -1337,47 +1411,47 @@ theorem evalKVs_sound : ∀ {kes : List (String × Expr)} {caps : Caps} {attrs :
       · simp at h
       · rename_i rest hrest
         have hs := (ih (k0, e) (by simp) _ _ _ hc he).2
-        cases hr : eval e env with
-        | error k => rw [hr] at hs; exact .inl ⟨k, by simp [evalKVs, hr, bind, Except.bind], hs⟩
-        | ok v =>
-          rw [hr] at hs
-          rcases evalKVs_sound (fun ke hke => ih ke (by simp [hke])) hc hrest with ⟨k, hk, hak⟩ | ⟨kvs, hkvs, hrel⟩
-          · exact .inl ⟨k, by simp [evalKVs, hr, hk, bind, Except.bind], hak⟩
-          · refine .inr ⟨(k0, v) :: kvs, by simp [evalKVs, hr, hkvs, bind, Except.bind], ?_⟩
-            intro k
-            have hk := hrel k
+        have hlast' : ∀ k e', lastKV k kes = some e' → ∃ v, eval e' env = .ok v := by
+          intro k e' hl; exact hlast k e' (by simp [lastKV, hl])
+        have hrel := typeOfKVs_rel (fun ke hke => ih ke (by simp [hke])) hc hrest hlast'
+        intro k
+        have hk := hrel k
+        simp only [lastKV]
+        cases hl : lastKV k kes with
+        | some y =>
+          rw [hl] at hk
+          simp only [Option.map_some] at hk ⊢
+          split at h
+          · simp only [Except.ok.injEq] at h; subst h; exact hk
+          · rename_i hhas
+            simp only [Except.ok.injEq] at h; subst h
+            by_cases hkk : k = k0
+            · subst hkk
+              have hnone : lookupAttr k rest = none := by
+                simp only [Bool.or_eq_true, not_or, Bool.not_eq_true] at hhas
+                simpa [hasKey] using hhas.1
+              rw [hnone] at hk; simp [RecRel] at hk
+            · simpa [lookupAttr, hkk] using hk
+        | none =>
+          rw [hl] at hk
+          have hnone : lookupAttr k rest = none := by
+            cases hx : lookupAttr k rest with
+            | none => rfl
+            | some p => rw [hx] at hk; simp [RecRel] at hk
+          by_cases hkk : k = k0
+          · subst hkk
+            obtain ⟨v, hv⟩ := hlast k e (by simp [lastKV, hl])
+            rw [hv] at hs
             have hnil : t.isNil = false := by cases hs.1 <;> rfl
-            simp only [hnil, Bool.or_false] at h
-            simp only [lastKV]
-            split at h
-            · -- a later entry already defines k0
-              rename_i hhas
-              simp only [Except.ok.injEq] at h; subst h
-              by_cases hkk : k = k0
-              · subst hkk
-                simp only [hasKey, Option.isSome_iff_exists] at hhas
-                obtain ⟨p, hp⟩ := hhas
-                rw [hp] at hk ⊢
-                cases hl : lastKV k kvs with
-                | none => rw [hl] at hk; simp [RecRel] at hk
-                | some y => rw [hl] at hk; simpa using hk
-              · cases hl : lastKV k kvs with
-                | none => rw [hl] at hk; simpa [hkk] using hk
-                | some y => rw [hl] at hk; simpa using hk
-            · rename_i hhas
-              simp only [Except.ok.injEq] at h; subst h
-              by_cases hkk : k = k0
-              · subst hkk
-                have hnone : lookupAttr k rest = none := by
-                  simpa [hasKey] using hhas
-                rw [hnone] at hk
-                cases hl : lastKV k kvs with
-                | none => simp [lookupAttr, RecRel, hs.1]
-                | some y => rw [hl] at hk; simp [RecRel] at hk
-              · simp only [lookupAttr, hkk, beq_iff_eq, if_false]
-                cases hl : lastKV k kvs with
-                | none => rw [hl] at hk; simpa using hk
-                | some y => rw [hl] at hk; simpa using hk
+            have hhas : hasKey k rest = false := by simp [hasKey, hnone]
+            simp only [hhas, hnil, Bool.or_false, Bool.false_eq_true, if_false, Except.ok.injEq] at h
+            subst h
+            simp [lookupAttr, RecRel, valOf, hv, hs.1]
+          · have hno : lookupAttr k attrs = none := by
+              split at h <;> (simp only [Except.ok.injEq] at h; subst h)
+              · exact hnone
+              · simp [lookupAttr, hkk, hnone]
+            simp [hkk, hno, RecRel]
 
 theorem sound_record {kes : List (String × Expr)} {caps caps' : Caps} {τ : Ty} (ih : ∀ ke ∈ kes, IH Γ env ke.2)
     (hc : CapsHold env caps)
@@ -1389,13 +1463,40 @@ theorem sound_record {kes : List (String × Expr)} {caps caps' : Caps} {τ : Ty}
     simp only [Except.ok.injEq, Prod.mk.injEq] at h
     obtain ⟨rfl, rfl⟩ := h
     refine sound_same hc ?_
-    rcases evalKVs_sound ih hc hattrs with ⟨k, hk, hak⟩ | ⟨kvs, hkvs, hrel⟩
-    · simp only [eval, hk, bind, Except.bind]; exact hak
-    · simp only [eval, hkvs, bind, Except.bind]
+    rw [eval_recordLit]
+    -- the literal evaluates the last entry of every key, in key order
+    cases hk : evalKVs (canonKVs kes) env with
+    | error k =>
+      obtain ⟨ke, hm, he⟩ := evalKVs_error_mem _ env k hk
+      have hmem := canonKVs_subset kes ke hm
+      obtain ⟨t, c, hty⟩ := typeOfKVs_entry_ok hattrs ke hmem
+      have hs := (ih ke hmem _ _ _ hc hty).2
+      rw [he] at hs
+      exact hs
+    | ok kvs =>
+      have hall : ∀ ke ∈ canonKVs kes, ∃ v, eval ke.2 env = .ok v := by
+        intro ke hm
+        cases hv : eval ke.2 env with
+        | ok v => exact ⟨v, rfl⟩
+        | error k =>
+          obtain ⟨k', hk'⟩ := evalKVs_error_of_mem _ env ke k hm hv
+          rw [hk] at hk'; cases hk'
+      have hkvs : kvs = canonKVs (kes.map (fun ke => (ke.1, valOf env ke.2))) := by
+        have := evalKVs_ok_of_all_ok _ env hall
+        rw [hk] at this
+        simp only [Except.ok.injEq] at this
+        rw [this, canonKVs_map (valOf env) kes]
+        rfl
+      have hlast : ∀ k e, lastKV k kes = some e → ∃ v, eval e env = .ok v := fun k e hl =>
+        hall (k, e) (lastKV_mem_canonKVs hl)
+      have hrel := typeOfKVs_rel ih hc hattrs hlast
+      show SoundRes _ _ _ (.ok (mkRecord kvs))
+      rw [hkvs, mkRecord_canon]
       refine ⟨?_, fun _ => hc⟩
       unfold mkRecord
-      have hget : ∀ k, kvGet k (kvs.foldl (fun acc kv => kvInsert kv.1 kv.2 acc) []) = lastKV k kvs := by
-        intro k; rw [kvGet_foldl]; cases lastKV k kvs <;> simp [kvGet]
+      have hget : ∀ k, kvGet k ((kes.map (fun ke => (ke.1, valOf env ke.2))).foldl (fun acc kv => kvInsert kv.1 kv.2 acc) []) =
+          (lastKV k kes).map (valOf env) := by
+        intro k; rw [kvGet_foldl, lastKV_map]; cases lastKV k kes <;> simp [kvGet]
       refine HasTy.record ?_ ?_ ?_
       · intro k v t req hg hl
         have := hrel k
@@ -1413,7 +1514,7 @@ theorem sound_record {kes : List (String × Expr)} {caps caps' : Caps} {τ : Ty}
         have := hrel k
         rw [hl] at this
         rw [hget]
-        cases hg : lastKV k kvs with
+        cases hg : (lastKV k kes).map (valOf env) with
         | none => rw [hg] at this; simp [RecRel] at this
         | some y => rfl
 
